@@ -35,7 +35,7 @@ var propImports = map[string][][]string{
 	"C09": {{"C06", "WALK", "SELECT", "POSITIONAL", "GATE"}, {"C19", "MODEL"}, {"C08", "SCOPE", "DIAGNOSE"}, {"C10", "BEFORE-COMMANDS"}, {"C04", "ERR-kept"}, {"C05", "FLAGS"}},
 	"C10": {{"C03", "TERMINATOR", "PASSAFTER"}, {"C02", "CLUSTER", "RUNES"}, {"C11", "UNMARSHAL"}},
 	"C11": {{"C02", "NEGATIVE"}, {"C05", "CLEAR"}, {"C04", "TYPED"}, {"C06", "RESULT"}, {"C10", "ORDER"}},
-	"C12": {{"C13", "FUNNEL"}, {"C11", "TAG"}},
+	"C12": {{"C13", "FUNNEL", "SECTION"}, {"C11", "TAG"}},
 	"C13": {{"C05", "INI"}, {"C14", "LONGLINE"}},
 	"C14": {{"C13", "PRIORITY", "SECTION"}, {"C11", "MAP"}},
 	"C16": {{"C17", "UNIT"}, {"C05", "ENVKEY"}},
